@@ -70,7 +70,16 @@ def run(prog, rep):
     rep.rule("C16.4", "line lifecycle: the per-line heap string is freed on every loop path; the file is closed on every path after a successful open")
     rep.rule("C16.5", "typed getters use the documented conversion: int through atoi / strtol base 10, double through p_strtod, boolean through the true/false literals then atoi > 0")
     u = prog.unit("pinifile.c")
-    ps = u.fn("p_ini_file_parse")
+    # constructors / destructors of the parsed objects stay calls (the typestate below speaks about them); other helpers are inlined
+    keep = set()
+    for f_ in u.functions.values():
+        if not f_.static:
+            continue
+        if "*" in (f_.d.get("rets") or "") and "PIni" in (f_.d.get("rets") or ""):
+            keep.add(f_.name)
+        if f_.params and any(c.get("callee") == "p_free" and root_var(c["args"][0]) == f_.param_names()[0] and strip_casts(c["args"][0])["k"] == "ref" for (b, i, c) in f_.calls()):
+            keep.add(f_.name)
+    ps = u.fn("p_ini_file_parse").inlined(skip=keep)
 
     # ---- C16.1 ---------------------------------------------------------------------------
     fg = [c for (b, i, c) in ps.calls() if c.get("callee") == "fgets"]
@@ -308,7 +317,38 @@ def run(prog, rep):
     lits = sorted(strip_casts(c["args"][1]).get("v") for (b, i, c) in gb.calls() if c.get("callee") == "strcmp" and strip_casts(c["args"][1])["k"] == "str")
     okb = lits == ["FALSE", "TRUE", "false", "true"] and any(c.get("callee") == "atoi" for (b, i, c) in gb.calls())
     rep.ob("C16.5", gb, "boolean", okb, "the boolean getter recognises true/TRUE/false/FALSE, then a positive number" if okb else "the boolean getter's literals are %s" % lits, gb.loc[0])
-    rep.floor("C16.5", 3)
+    # list getter: an element is emitted only for a non-empty token (runs of blanks and a blank after '{' produce nothing)
+    gl = u.fn("p_ini_file_parameter_list").inlined()
+    tokbuf = None
+    cnts = set()
+    for b, i, n in gl.nodes():
+        if n["k"] == "asg":
+            l = strip_casts(n["l"])
+            if l is not None and l["k"] == "idx" and strip_casts(l["base"])["k"] == "ref":
+                iv = strip_casts(l["i"])
+                if iv is not None and iv["k"] == "un" and "++" in iv["op"]:
+                    iv = strip_casts(iv["e"])
+                if iv is not None and iv["k"] == "ref":
+                    tokbuf = strip_casts(l["base"])["name"]
+                    cnts.add(iv["name"])
+    emits = []
+    for b, i, c in gl.calls():
+        if c.get("callee") in ("p_list_append", "p_list_prepend") and any(x.get("callee") == "p_strdup" and root_var(x["args"][0]) == tokbuf for x in calls(c)):
+            emits.append((b, i, c))
+    if not tokbuf or not emits:
+        raise AnalysisBroken("p_ini_file_parameter_list: token buffer / emit sites not found")
+    for k, (b, i, c) in enumerate(emits):
+        def nonempty(x):
+            if x["k"] != "bin":
+                return False
+            lv, rv_ = strip_casts(x["l"]), cv(x["r"])
+            if lv is None or lv["k"] != "ref" or lv["name"] not in cnts:
+                return False
+            return (x["op"] in (">", "!=") and rv_ == 0) or (x["op"] == ">=" and rv_ == 1)
+        g = true_edge_guards(gl, b.id, nonempty)
+        rep.ob("C16.5", gl, "list:token#%d" % (k + 1), bool(g), "a list element is emitted only when the token holds at least one character (%s)" % show(g[0]) if g else
+               "line %d: a list element is emitted without testing that the token is non-empty: two blanks in a row, or a blank after '{', produce empty elements" % line(c), c)
+    rep.floor("C16.5", 5)
 
     # ---- C16.6 grammar table ------------------------------------------------------------------------
     rep.rule("C16.6", "grammar table: the line patterns are exactly the documented ones ([name] header; key = \"v\", key = 'v', key = v up to ; or #), tried in that order with the "
@@ -421,6 +461,10 @@ SELFTEST = [
     dict(id="header-guard-nested-neutral", file="src/pinifile.c", expect=None,
          old="\t\tif (dst_line[0] == '[' && dst_line[strlen (dst_line) - 1] == ']' &&\n\t\t    sscanf (dst_line, \"[%[^]]\", key) == 1) {",
          new="\t\tif (dst_line[strlen (dst_line) - 1] == ']' && dst_line[0] == '[' &&\n\t\t    sscanf (dst_line, \"[%[^]]\", key) == 1) {"),
+    dict(id="list-getter-emits-empty-tokens", file="src/pinifile.c", expect="C16.5",
+         old="\t\t\tif (buf_cnt > 0)\n\t\t\t\tret = p_list_append (ret, p_strdup (buf));\n", new="\t\t\tret = p_list_append (ret, p_strdup (buf));\n"),
+    dict(id="list-getter-guard-ne-zero-neutral", file="src/pinifile.c", expect=None,
+         old="\t\t\tif (buf_cnt > 0)\n\t\t\t\tret = p_list_append (ret, p_strdup (buf));\n", new="\t\t\tif (buf_cnt != 0)\n\t\t\t\tret = p_list_append (ret, p_strdup (buf));\n"),
     dict(id="int-getter-strtol10-neutral", file="src/pinifile.c", expect=None,
          old="\tret = atoi (val);", new="\tret = (pint) strtol (val, NULL, 10);"),
 ]
